@@ -8,4 +8,6 @@ CONSTANTS B = 256
   TU_FROM_START = TRUE
   NOTDEF_OWN = TRUE
   CHUNK = 100
+  STACK = 500
+  CHUNK_STACK = TRUE
 CHECK_DEADLOCK FALSE
